@@ -30,6 +30,8 @@ def slices(tier):
         Slice("index", [U, A], IDX, 4, idx=(10,), levels=[{"index"}, IDX, IDX, PE], mikinds=("name", "fixed"), **kw),
         Slice("alg", [F, U, A], ALG, 3, idx=(10,), levels=[ALG | {"add"}, ALG, PE], **kw),
         Slice("alg3", [P, Q, ("M", (3, 3))], {"cross", "det", "inv", "dot", "inner", "outer", "dev", "cofac"}, 2, idx=(10,), maxdim=3, gdim=3, levels=[{"cross", "det", "inv", "dot", "inner", "outer", "dev", "cofac"}, PE], **kw),
+        # 4x4: the generic (recursive) cofactor expansion behind det / cofac / inv
+        Slice("alg4", [("N", (4, 4))], {"det", "transpose", "cofac", "inv"}, 3, idx=(10,), maxdim=4, gdim=3, levels=[{"det", "transpose", "cofac", "inv"}, {"det", "tr", "index", "neg"}, PE], **kw),
         Slice("cond", [F, G], COND, 3, lits=[LIT["zero"]], levels=[{"lt", "ge", "eq", "ne", "max", "min", "sign"}, {"and", "or", "not", "cond", "max"}, PE], **kw),
         Slice("cond-tensor", [F, G, U, V, A], {"lt", "cond", "index", "add"}, 4, idx=(10,), levels=[{"lt"}, {"cond"}, {"index", "add", "cond"}, PE], **kw),
         Slice("complex", [F, U], {"conj", "real", "imag", "abs", "mul", "inner", "outer", "dot"}, 3, lits=[LIT["i"]], complex_env=True, small=True, finalops=PE, only_final=True, levels=[{"conj", "real", "imag", "abs", "mul", "inner", "outer", "dot"}] * 2 + [PE]),
